@@ -20,10 +20,13 @@ ORDER_SIZES = (2.0, 5.0)
 TIFS = (("-", None), ("FOK", None), ("FOK", 1.0), ("FOK", "size"), ("FOK", "over"), ("FOK", 0.5))
 
 
-def books(max_levels, sizes):
+LADDER_T = (1.9, 1.95, 2.0, 2.02, 2.1, 2.2, 2.5)
+
+
+def books(max_levels, sizes, ladder=LADDER):
     out = []
     for k in range(0, max_levels + 1):
-        for prices in itertools.combinations(LADDER, k):
+        for prices in itertools.combinations(ladder, k):
             for szs in itertools.product(sizes, repeat=k):
                 out.append([[p, s] for p, s in zip(prices, szs)])
     return out
@@ -193,7 +196,7 @@ TRADES = (["T", 1, [[1.9, 8]]], ["T", 1, [[2.0, 8]]], ["T", 1, [[2.1, 8]]], ["T"
 def run(tier):
     rep = core.Report("C05", tier, "E3 gridx + E1 simx")
     if tier == "thorough":
-        bks = books(3, SIZES_L) + [b for b in books(4, (1, 5)) if len(b) == 4]
+        bks = books(4, SIZES_L, LADDER_T) + [b for b in books(5, (1, 5)) if len(b) == 5]
         tlen = 3
     else:
         bks = books(3, SIZES_L)
